@@ -194,8 +194,10 @@ func VerifC15Block() {
 	n := pick("txbytes", maxBytes+1)
 	payload = append(payload, nondetBytes("txdata", n)...)
 	e.conn.in = frameMsg(wire.CmdBlock, payload, nondetBool("extended"))
+	verifSetAllocBudget(len(e.conn.in) + 65536)
 	err := e.node.handleMessage(e.ctx, e.conn)
 	left := verifQuiesce()
+	verifAllocDone()
 	verifObserve("block", n, err == nil)
 	verifAssert(left == 0, "goroutine-left-blocked-after-message")
 	verifReach("done")
